@@ -5,6 +5,7 @@ unfolding `(lv, tb)` of the chain: `lv k` = leaves below `k`, `tb k` = product o
 fractions of all decays below `k` (each counted as often as it occurs).
 -/
 import DL.Lemmas.Flatten
+import DL.Lemmas.FlattenTerm
 namespace DL
 
 variable {α : Type} [CommMonoid α]
@@ -69,6 +70,52 @@ theorem C12_mother_not_stable (decays : List (String × FMode α)) (mother : Str
     intro h
     simp [hs] at h
   simp [flatten, ht, hk]
+
+/-- C12 (termination): for an acyclic chain - a rank on names that drops along decaying daughters -
+    the loop ends, and any fuel beyond (rank bound + 1) gives the same flattened chain.  Together with
+    `C12_flatten` this is total correctness: the result exists and is the tree's product and leaves. -/
+theorem C12_terminates (decays : List (String × FMode α)) (mother : String) (stable : List String)
+    (keys : List String) (rank : String → Nat) (B : Nat) (top : FMode α)
+    (ht : dget decays mother = some top)
+    (hk : flattenKeys (dkeys decays) stable mother = some keys)
+    (hac : Acyclic decays keys rank) (he : HasEntries decays keys) (hB : ∀ k ∈ keys, rank k < B) :
+    ∃ r, ∀ f, B + 1 ≤ f → flatten decays mother stable f = .ok r := by
+  have hb : Bound keys rank B (top.bf, top.ds).2 := fun x _ hxk => hB x hxk
+  obtain ⟨res, hres⟩ := floop_terminates hac he B (top.bf, top.ds) hb
+  refine ⟨(res.1, ssort res.2), ?_⟩
+  intro f hf
+  have := floop_mono_le (B + 1) f (top.bf, top.ds) res hres hf
+  simp [flatten, ht, hk, this]
+
+/-- the keys of `flatten` always have entries: they are keys of the dictionary -/
+theorem hasEntries_of_keys (decays : List (String × FMode α)) (stable : List String) (mother : String)
+    (keys : List String) (hk : flattenKeys (dkeys decays) stable mother = some keys) : HasEntries decays keys := by
+  have hsub : ∀ k ∈ keys, k ∈ dkeys decays := by
+    dsimp only [flattenKeys] at hk
+    split at hk
+    · rename_i hc
+      simp only [Option.some.injEq] at hk
+      subst hk
+      intro k hkm
+      rcases List.mem_cons.mp hkm with rfl | hkm
+      · have := List.contains_iff_mem.mp hc
+        exact (List.mem_filter.mp this).1
+      · exact (List.mem_filter.mp (List.mem_of_mem_erase hkm)).1
+    · cases hk
+  intro k hkm
+  have := hsub k hkm
+  clear hk hsub hkm
+  induction decays with
+  | nil => simp [dkeys] at this
+  | cons p r ih =>
+    obtain ⟨k', v⟩ := p
+    by_cases h : k' = k
+    · exact ⟨v, by simp [dget, h]⟩
+    · simp only [dkeys, List.map_cons, List.mem_cons] at this
+      rcases this with e | hm
+      · exact absurd e.symm h
+      · obtain ⟨md, hmd⟩ := ih (by simpa [dkeys] using hm)
+        exact ⟨md, by simp [dget, h, hmd]⟩
 
 /-! ### non-vacuity: D0 -> K_S0 pi0 pi0, K_S0 -> pi+ pi-, pi0 -> gamma gamma over ℕ -/
 
